@@ -338,7 +338,7 @@ def read_programs(ctx):
 
 
 def run(ctx):
-    framework.check_facts(ctx, ctx.facts, ["map_ranges", "writer_calls", "replay_cases", "truncate_sites"])
+    framework.check_facts(ctx, ctx.facts, ["map_ranges", "writer_calls", "replay_cases", "truncate_sites", "open_sites"])
     storage_tie(ctx, ctx.seed + 1200, 600 if ctx.quick else 8000)
     codec_tie(ctx, ctx.seed + 1250, 500 if ctx.quick else 12000)
     res = fndiff.run_stream(ctx.ev, ["fn-replay", str(ctx.seed + 1201), "1500" if ctx.quick else "20000"])
